@@ -3286,7 +3286,13 @@ class FuncRandom(ValueFunc):
     def getRandomInt(self, minv, maxv):
         minv = math.ceil(minv)
         maxv = math.floor(maxv)
-        return math.floor(self.seededRandom() * (maxv - minv)) + minv
+        fraction = self.seededRandom()
+        try:
+            return math.floor(fraction * (maxv - minv)) + minv
+        except OverflowError:
+            # a range beyond the float range is scaled exactly
+            scale = 2 ** 53
+            return int(fraction * scale) * (maxv - minv) // scale + minv
 
     def getRandomDouble(self):
         return self.seededRandom()
